@@ -8,13 +8,14 @@ import math
 
 from . import pe as P
 from .pe import (Tensor, Obj, Func, ClassRef, Ext, ShapeV, Opaque, C, fr,
-                 is_num, mkfloat, is_floaty, PyRaise, FloatTag, Mock, NArr)
+                 is_num, mkfloat, is_floaty, PyRaise, FloatTag, Mock, NArr,
+                 NDArr)
 from .nf import log2_exact
 
 # canonical names -> elementwise unary application name
 UNARY = {
     "tf.round": "round", "K.round": "round", "np.round": "round",
-    "np.rint": "round",
+    "np.rint": "round", "tf.rint": "round",
     "tf.floor": "floor", "K.floor": "floor", "np.floor": "floor",
     "tf.ceil": "ceil", "K.ceil": "ceil", "np.ceil": "ceil",
     "tf.sign": "sign", "K.sign": "sign", "np.sign": "sign",
@@ -496,13 +497,14 @@ def call(pe, name, args, kwargs, node):
     if e is not None:
       return mkfloat(e)
     return mkfloat(Fraction(math.log2(float(f))))
-  if name in ("np.mod", "tf.math.mod", "tf.math.floormod", "np.fmod"):
+  if name in ("np.mod", "tf.math.mod", "tf.math.floormod", "np.fmod",
+              "tf.mod", "tf.floormod"):
     a, b = args
     if any_tensor(a, b):
       return T(pe, ("app", "mod", (), (pe.as_term(a), pe.as_term(b))),
                shape_of(a, b))
     return pe.binop(ast.Mod(), a, b)
-  if name in ("np.prod", "tf.reduce_prod", "K.prod"):
+  if name in ("np.prod", "tf.reduce_prod", "K.prod", "math.prod"):
     r = 1
     for v in pe.iterate(args[0]):
       r = pe.binop(ast.Mult(), r, v)
@@ -524,6 +526,25 @@ def call(pe, name, args, kwargs, node):
     return unary(pe, "round", args[0])
   if name in UNARY:
     return unary(pe, UNARY[name], args[0])
+  if name in ("np.asarray", "np.array") and args and isinstance(
+      args[0], NDArr):
+    return args[0]
+  if name in ("np.asarray", "np.array") and args and isinstance(
+      args[0], list) and args[0] and isinstance(args[0][0], list):
+    nd = NDArr(args[0])
+    if all(is_num(e) for e in nd.flat()):
+      return nd
+  if name in ("np.reshape", "tf.reshape") and args and isinstance(
+      args[0], (NDArr, NArr)):
+    shp = arg(args, kwargs, 1, "newshape", kwargs.get("shape"))
+    flat = args[0].flat() if isinstance(args[0], NDArr) else list(args[0])
+    return NDArr.from_flat(flat, [int(fr(d)) for d in shp])
+  if name in ("np.squeeze", "tf.squeeze") and args and isinstance(
+      args[0], (NDArr, NArr)):
+    if isinstance(args[0], NArr):
+      return args[0] if len(args[0]) != 1 else args[0][0]
+    shp = [d for d in args[0].shape if d != 1]
+    return NDArr.from_flat(args[0].flat(), shp)
   if name in ("np.asarray", "np.array") and args and isinstance(
       args[0], (list, range, tuple)) and not isinstance(args[0], NArr) and \
       all(is_num(e) and not isinstance(e, bool) for e in args[0]) and \
@@ -613,7 +634,30 @@ def call(pe, name, args, kwargs, node):
     x = args[0]
     return clip(pe, pe.binop(ast.Add(), pe.binop(ast.Mult(), mkfloat(0.2), x),
                              mkfloat(0.5)), 0, 1)
-  if name == "tf.stop_gradient":
+  if name in ("tf.floordiv", "np.floor_divide"):
+    return pe.binop(ast.FloorDiv(), args[0], args[1])
+  if name in ("tf.reciprocal", "np.reciprocal"):
+    return pe.binop(ast.Div(), 1, args[0])
+  if name in ("tf.divide_no_nan",):
+    # a / b, and 0 where b == 0
+    a, b = args[0], args[1]
+    if any_tensor(a, b):
+      tb = pe.as_term(b)
+      return T(pe, ("where", ("cmp", "eq", tb, C(0)), C(0),
+                    ("div", pe.as_term(a), tb)), shape_of(a, b))
+    return 0 if fr(b) == 0 else pe.binop(ast.Div(), a, b)
+  if name in ("tf.squared_difference",):
+    d = pe.binop(ast.Sub(), args[0], args[1])
+    return pe.binop(ast.Mult(), d, d)
+  if name in ("tf.nn.relu6",):
+    return clip(pe, args[0], 0, 6)
+  if name in ("tf.transpose", "K.transpose", "np.transpose",
+              "K.permute_dimensions"):
+    v = args[0]
+    if not isinstance(v, Tensor):
+      return v
+    return T(pe, ("app", "reshape", (None,), (v.term,)), None)
+  if name in ("tf.stop_gradient", "K.stop_gradient"):
     v = args[0]
     if not isinstance(v, Tensor):
       return v
